@@ -392,7 +392,10 @@ var c10conc = Check[concHistoryCase]{
 		}
 		return c
 	},
-	Run: runConcHistoryCase,
+	Run: func(c concHistoryCase) *Violation {
+		pendingCase("C10", "concurrent", c) // a race report halts the process: attribute it to this case
+		return runConcHistoryCase(c)
+	},
 	Classify: func(c concHistoryCase) (bool, []string) {
 		return len(c.Histories) >= 2, []string{fmt.Sprintf("goroutines=%d", len(c.Histories))}
 	},
